@@ -3,6 +3,8 @@ import json
 import datetime
 from functools import partial
 
+from ....helpers.extended_json import DATE_F_FORMAT
+
 
 def identity(x):
     return x
@@ -49,6 +51,9 @@ class FileFormat():
                     format = field.descriptor.get(self.temporal_format_property, None)
                     if format:
                         strftime = getattr(datetime, field.type).strftime
+                        if DATE_F_FORMAT.startswith('%04Y'):
+                            # years before 1000 are written with four digits (as without this option)
+                            format = format.replace('%Y', '%04Y')
                         serializer = partial(strftime, format=format)
             field.descriptor['serializer'] = serializer
 
